@@ -333,6 +333,8 @@ class Body:
                 base = self.expr_place([p[0]], depth - 1, _seen)
                 if base[0] == "ref":
                     return ("place", base[1] + p[2:])
+                if base[0] in ("call", "callop") and len(p) == 2:
+                    return ("deref", base)
             return ("place", p)
         l = p[0]
         if depth <= 0:
@@ -866,4 +868,6 @@ def fmt_expr(e, depth=0):
         return "discr(%s)" % fmt_expr(e[1], depth + 1)
     if k == "local":
         return "_%d" % e[1]
+    if k == "deref":
+        return "*" + fmt_expr(e[1], depth + 1)
     return k
